@@ -679,6 +679,18 @@ theorem ofNat_inj_le3 {a b : Nat} (ha : a ≤ 3) (hb : b ≤ 3) (h : UInt8.ofNat
   have := congrArg UInt8.toNat h
   rwa [toNat_ofNat_lt (by omega), toNat_ofNat_lt (by omega)] at this
 
+/-- the bytes the hash of a parsed chunk is computed over: type byte, LEB128 length and data as
+    read from the input — for a compressed change: of the inflated change -/
+def Chunk.hashed (c : Chunk) : Bytes :=
+  if c.ty = 2 then hashedBytes 1 c.body else hashedBytes c.ty c.data
+
+/-- the accepted chunk `ch` collides with the original chunk `(ty, data)`: it carries the
+    original checksum, its hash is the digest of bytes *other* than those hashed for the original,
+    and the two digests agree in their first four bytes -/
+def Collides (ty : Nat) (data : Bytes) (ch : Chunk) : Prop :=
+  ch.hashed ≠ hashedBytes ty data ∧ ch.hash = Sha256.sha256 ch.hashed ∧
+  (Sha256.sha256 ch.hashed).take 4 = (Sha256.sha256 (hashedBytes ty data)).take 4
+
 /-- a change behind the checksum field: the accepted chunk carries the old checksum, and its
     hash is computed over bytes other than the original ones — except possibly when a change
     chunk is turned into a compressed one -/
@@ -687,8 +699,8 @@ theorem change_in_body {bodyOk : Nat → Bytes → Bool} {cks : Bytes} (hc : cks
     (hdf : DiffersAt (encodeChunkWith cks ty data ++ tail) inp' i) (h8 : 8 ≤ i)
     (hi : i < (encodeChunkWith cks ty data).length) {ch : Chunk} {rest' : Bytes}
     (hp : parseChunk bodyOk inp' = .ok (ch, rest')) :
-    ch.checksum = cks ∧ ∃ y, ch.hash = Sha256.sha256 y ∧
-      (y ≠ hashedBytes ty data ∨ (ty = 1 ∧ i = 8 ∧ ch.ty = 2)) := by
+    ch.checksum = cks ∧ ch.hash = Sha256.sha256 ch.hashed ∧
+      (ch.hashed ≠ hashedBytes ty data ∨ (ty = 1 ∧ i = 8 ∧ ch.ty = 2)) := by
   obtain ⟨einp, hc', hty', hdl, hcase⟩ := parseChunk_ok_inv hp
   rw [encodeChunkWith_eq, List.append_assoc] at einp hdf
   rw [encodeChunkWith_eq, List.length_append, magic_cks_length hc] at hi
@@ -713,8 +725,10 @@ theorem change_in_body {bodyOk : Nat → Bytes → Bool} {cks : Bytes} (hc : cks
     rw [einp, hd, List.append_assoc]
   refine ⟨hck, ?_⟩
   rcases hcase with ⟨h2, -, hh, -⟩ | ⟨h2, -, hh, -⟩
-  · exact ⟨_, hh, Or.inl key⟩
-  · refine ⟨hashedBytes 1 ch.body, hh, ?_⟩
+  · have e : ch.hashed = hashedBytes ch.ty ch.data := by rw [Chunk.hashed, if_neg h2]
+    rw [e]; exact ⟨hh, Or.inl key⟩
+  · have e : ch.hashed = hashedBytes 1 ch.body := by rw [Chunk.hashed, if_pos h2]
+    rw [e]; refine ⟨hh, ?_⟩
     by_cases hy : hashedBytes 1 ch.body = hashedBytes ty data
     · right
       have ht : ty = 1 := (ofNat_inj_le3 (by omega) hty (List.cons.inj hy).1).symm
@@ -740,9 +754,8 @@ theorem change_accept {bodyOk : Nat → Bytes → Bool} {ty : Nat} {data tail in
     (hdf : DiffersAt (encodeChunk ty data ++ tail) inp' i) (hi : i < (encodeChunk ty data).length)
     {ch : Chunk} {rest' : Bytes} (hp : parseChunk bodyOk inp' = .ok (ch, rest'))
     (hv : ch.checksumValid = true) :
-    (∃ y, y ≠ hashedBytes ty data ∧
-      (Sha256.sha256 y).take 4 = (Sha256.sha256 (hashedBytes ty data)).take 4) ∨
-    (ty = 1 ∧ i = 8 ∧ ch.ty = 2 ∧ ch.hash = chunkHash 1 data) := by
+    Collides ty data ch ∨
+    (ty = 1 ∧ i = 8 ∧ inp'[8]? = some 2 ∧ ch.ty = 2 ∧ ch.hash = chunkHash 1 data) := by
   by_cases h4 : i < 4
   · rw [change_in_magic hdf h4] at hp; cases hp
   by_cases h8 : i < 8
@@ -751,32 +764,27 @@ theorem change_accept {bodyOk : Nat → Bytes → Bool} {ty : Nat} {data tail in
     · rw [h] at hp
       simp only [Except.ok.injEq, Prod.mk.injEq] at hp
       rw [hp.1, hv] at hv'; cases hv'
-  · obtain ⟨hck, y, hh, hy⟩ :=
+  · obtain ⟨hck, hh, hy⟩ :=
       change_in_body (checksum_length ty data) hty hdf (by omega) hi hp
     have hv' : ch.hash.take 4 = ch.checksum := by simpa [Chunk.checksumValid] using hv
     rw [hck, hh, chunkHash_eq] at hv'
     rcases hy with hy | ⟨h1, h2, h3⟩
-    · exact Or.inl ⟨y, hy, hv'⟩
-    · by_cases hy : y = hashedBytes ty data
+    · exact Or.inl ⟨hy, hh, hv'⟩
+    · by_cases hy : ch.hashed = hashedBytes ty data
       · right
-        refine ⟨h1, h2, h3, ?_⟩
-        rw [hh, hy, h1]; rfl
-      · exact Or.inl ⟨y, hy, hv'⟩
+        refine ⟨h1, h2, ?_, h3, ?_⟩
+        · obtain ⟨einp, hc', -, -, -⟩ := parseChunk_ok_inv hp
+          rw [einp, encodeChunkWith_getElem?_8 hc', h3]; rfl
+        · rw [hh, hy, h1]; rfl
+      · exact Or.inl ⟨hy, hh, hv'⟩
 
-/-- a single-bit flip cannot turn the type byte "change" into "compressed" -/
-theorem flipBit_not_quine {ty : Nat} {data tail : Bytes} {i bit : Nat}
-    (hb : bit < 8) (h1 : ty = 1) (h8 : i = 8) (ch : Chunk) (rest' : Bytes) (bodyOk : Nat → Bytes → Bool)
-    (hp : parseChunk bodyOk (flipBit (encodeChunk ty data ++ tail) i bit) = .ok (ch, rest'))
-    (h2 : ch.ty = 2) : False := by
-  obtain ⟨einp, hc', -, -, -⟩ := parseChunk_ok_inv hp
-  have e1 := congrArg (·[8]?) einp
-  subst h1 h8
-  rw [encodeChunkWith_getElem?_8 hc', h2, flipBit, List.getElem?_modify, encodeChunk,
-    encodeChunkWith_getElem?_8 (checksum_length _ _)] at e1
-  simp only [if_true, Option.map_eq_map, Option.map_some, Option.some.injEq] at e1
-  have key : ∀ j : Fin 8, UInt8.ofNat 1 ^^^ ((1 : UInt8) <<< UInt8.ofNat j.val) ≠ UInt8.ofNat 2 := by
-    decide
-  exact key ⟨bit, hb⟩ e1
+/-- a single-bit flip cannot turn the byte 1 ("change") into 2 ("compressed") -/
+theorem flipBit_one_ne_two {bs : Bytes} {i bit : Nat} (hb : bit < 8) (h1 : bs[i]? = some 1)
+    (h2 : (flipBit bs i bit)[i]? = some 2) : False := by
+  rw [flipBit, List.getElem?_modify, h1] at h2
+  simp only [if_true, Option.map_eq_map, Option.map_some, Option.some.injEq] at h2
+  have key : ∀ j : Fin 8, (1 : UInt8) ^^^ ((1 : UInt8) <<< UInt8.ofNat j.val) ≠ 2 := by decide
+  exact key ⟨bit, hb⟩ h2
 
 /-! ### Loads that succeed have parsed and checked their first chunk -/
 
@@ -830,6 +838,28 @@ theorem loadChunks_acc_subset (bodyOk : Nat → Bytes → Bool) (fuel : Nat) (in
         · exact hc
         · exact ih _ _ (by simp [hc])
 
+/-- what the first chunk of a successful load is: it is read from the front of the input, its hash
+    is the digest of `Chunk.hashed`, and the stored checksum is the first four digest bytes -/
+theorem loadFile_ok_first_read {bodyOk : Nat → Bytes → Bool} {mode : OnPartial} {inp : Bytes}
+    {chunks : List Chunk} (h : loadFile bodyOk mode inp = .ok chunks) (hne : inp.isEmpty = false) :
+    ∃ ch rest more, chunks = ch :: more ∧
+      inp = encodeChunkWith ch.checksum ch.ty ch.data ++ rest ∧
+      ch.hash = Sha256.sha256 ch.hashed ∧ ch.hash.take 4 = ch.checksum ∧
+      (ch.ty ≠ 2 → ch.body = ch.data) ∧ (ch.ty = 2 → Inflate.inflate ch.data = some ch.body) := by
+  obtain ⟨ch, rest, more, hp, hv, rfl⟩ := loadFile_ok_first h hne
+  obtain ⟨einp, -, -, -, hcase⟩ := parseChunk_ok_inv hp
+  have hv' : ch.hash.take 4 = ch.checksum := by simpa [Chunk.checksumValid] using hv
+  refine ⟨ch, rest, more, rfl, einp, ?_, hv', ?_, ?_⟩
+  · rcases hcase with ⟨h2, -, hh, -⟩ | ⟨h2, -, hh, -⟩
+    · rw [Chunk.hashed, if_neg h2]; exact hh
+    · rw [Chunk.hashed, if_pos h2]; exact hh
+  · rcases hcase with ⟨h2, hb, -, -⟩ | ⟨h2, -, -, -⟩
+    · exact fun _ => hb
+    · exact fun hn => absurd h2 hn
+  · rcases hcase with ⟨h2, -, -, -⟩ | ⟨h2, hi, -, -⟩
+    · exact fun hn => absurd hn h2
+    · exact fun _ => hi
+
 /-! ### C14 at the level of `loadFile` -/
 
 theorem DiffersAt.isEmpty_false {a b : Bytes} {i : Nat} (h : DiffersAt a b i) : b.isEmpty = false :=
@@ -863,13 +893,11 @@ theorem loadFile_change_accept {bodyOk : Nat → Bytes → Bool} {mode : OnParti
     {data tail file' : Bytes} {i : Nat} (hty : ty ≤ 3) (hty2 : ty ≠ 2) (hd : data.length < 2 ^ 64)
     (hdf : DiffersAt (encodeChunk ty data ++ tail) file' i) (hi : i < (encodeChunk ty data).length)
     {chunks : List Chunk} (h : loadFile bodyOk mode file' = .ok chunks) :
-    (∃ y, y ≠ hashedBytes ty data ∧
-      (Sha256.sha256 y).take 4 = (Sha256.sha256 (hashedBytes ty data)).take 4) ∨
-    (ty = 1 ∧ i = 8 ∧ ∃ ch more, chunks = ch :: more ∧ ch.ty = 2 ∧ ch.hash = chunkHash 1 data) := by
+    ∃ ch more, chunks = ch :: more ∧
+      (Collides ty data ch ∨
+       (ty = 1 ∧ i = 8 ∧ file'[8]? = some 2 ∧ ch.ty = 2 ∧ ch.hash = chunkHash 1 data)) := by
   obtain ⟨ch, rest, more, hp, hv, rfl⟩ := loadFile_ok_first h hdf.isEmpty_false
-  rcases change_accept hty hty2 hd hdf hi hp hv with hc | ⟨h1, h2, h3, h4⟩
-  · exact Or.inl hc
-  · exact Or.inr ⟨h1, h2, ch, more, rfl, h3, h4⟩
+  exact ⟨ch, more, rfl, change_accept hty hty2 hd hdf hi hp hv⟩
 
 /-- change in a later chunk, strict load: the chunks before it are well-formed, so the loop
     reaches the changed chunk and must accept it -/
@@ -879,10 +907,10 @@ theorem loadFile_change_later_accept {bodyOk : Nat → Bytes → Bool} (pre : Li
     (hdf : DiffersAt (fileOf pre ++ (encodeChunk ty data ++ tail)) file' i)
     (hlo : (fileOf pre).length ≤ i) (hhi : i < (fileOf pre).length + (encodeChunk ty data).length)
     {chunks : List Chunk} (h : loadFile bodyOk .error file' = .ok chunks) :
-    (∃ y, y ≠ hashedBytes ty data ∧
-      (Sha256.sha256 y).take 4 = (Sha256.sha256 (hashedBytes ty data)).take 4) ∨
-    (ty = 1 ∧ i = (fileOf pre).length + 8 ∧
-      ∃ ch, ch ∈ chunks ∧ ch.ty = 2 ∧ ch.hash = chunkHash 1 data) := by
+    ∃ ch, ch ∈ chunks ∧
+      (Collides ty data ch ∨
+       (ty = 1 ∧ i = (fileOf pre).length + 8 ∧ file'[i]? = some 2 ∧ ch.ty = 2 ∧
+          ch.hash = chunkHash 1 data)) := by
   -- split the changed file behind the unchanged chunks
   have hd' := hdf.drop hlo
   rw [List.drop_left] at hd'
@@ -897,9 +925,12 @@ theorem loadFile_change_later_accept {bodyOk : Nat → Bytes → Bool} (pre : Li
   | nil =>
     rw [fileOf_nil, List.nil_append] at h
     rw [fileOf_nil, List.length_nil, Nat.sub_zero] at hd'
-    rcases loadFile_change_accept hty hty2 hd hd' (by simpa [fileOf] using hhi) h with hc | ⟨h1, h2, ch, more, rfl, h3, h4⟩
-    · exact Or.inl hc
-    · exact Or.inr ⟨h1, by simpa [fileOf] using h2, ch, List.mem_cons_self .., h3, h4⟩
+    obtain ⟨ch, more, rfl, hc | ⟨h1, h2, hb, h3, h4⟩⟩ :=
+      loadFile_change_accept hty hty2 hd hd' (by simpa [fileOf] using hhi) h
+    · exact ⟨ch, List.mem_cons_self .., Or.inl hc⟩
+    · have h2' : i = 8 := by simpa using h2
+      exact ⟨ch, List.mem_cons_self .., Or.inr ⟨h1, by simpa [fileOf] using h2',
+        by rw [h2']; simpa [fileOf] using hb, h3, h4⟩⟩
   | cons p ps =>
     have hp := hpre p (List.mem_cons_self ..)
     have hps : ∀ s ∈ ps, s.WF bodyOk := fun t ht => hpre t (List.mem_cons_of_mem _ ht)
@@ -915,9 +946,7 @@ theorem loadFile_change_later_accept {bodyOk : Nat → Bytes → Bool} (pre : Li
     · rename_i herr
       obtain ⟨ch, rest, hpc, hv⟩ := loadChunks_ok_first herr hd'.isEmpty_false
       have hi' : i - (fileOf (p :: ps)).length < (encodeChunk ty data).length := by omega
-      rcases change_accept hty hty2 hd hd' hi' hpc hv with hc | ⟨h1, h2, h3, h4⟩
-      · exact Or.inl hc
-      · refine Or.inr ⟨h1, by omega, ch, ?_, h3, h4⟩
+      have hmem : ch ∈ chunks := by
         have hc := (Except.ok.inj h).symm
         rw [hc]
         apply List.mem_cons_of_mem
@@ -925,6 +954,101 @@ theorem loadFile_change_later_accept {bodyOk : Nat → Bytes → Bool} (pre : Li
         rw [loadChunks, hd'.isEmpty_false, hpc]
         simp only [hv, Bool.not_true, Bool.false_eq_true, if_false]
         exact loadChunks_acc_subset _ _ _ _ _ (by simp)
+      refine ⟨ch, hmem, ?_⟩
+      rcases change_accept hty hty2 hd hd' hi' hpc hv with hc | ⟨h1, h2, hb, h3, h4⟩
+      · exact Or.inl hc
+      · have hi8 : i = (fileOf (p :: ps)).length + 8 := by omega
+        refine Or.inr ⟨h1, hi8, ?_, h3, h4⟩
+        rw [hi8, fileOf_cons, List.append_assoc, ← List.append_assoc,
+          List.getElem?_append_right (by rw [← fileOf_cons]; omega), ← fileOf_cons,
+          Nat.add_sub_cancel_left]
+        exact hb
     · cases h
+
+
+/-! ### Single-bit flips -/
+
+theorem encodeChunk_getElem?_8 (ty : Nat) (data rest : Bytes) :
+    (encodeChunk ty data ++ rest)[8]? = some (UInt8.ofNat ty) :=
+  encodeChunkWith_getElem?_8 (checksum_length _ _) ty data rest
+
+/-- single-bit flip in the first chunk, either mode: a successful load exhibits a collision -/
+theorem loadFile_flip_accept {bodyOk : Nat → Bytes → Bool} {mode : OnPartial} {ty : Nat}
+    {data tail : Bytes} {i bit : Nat} (hty : ty ≤ 3) (hty2 : ty ≠ 2) (hd : data.length < 2 ^ 64)
+    (hi : i < (encodeChunk ty data).length) (hb : bit < 8) {chunks : List Chunk}
+    (h : loadFile bodyOk mode (flipBit (encodeChunk ty data ++ tail) i bit) = .ok chunks) :
+    ∃ ch more, chunks = ch :: more ∧ Collides ty data ch := by
+  have hdf := flipBit_differsAt (encodeChunk ty data ++ tail) i bit
+    (by rw [List.length_append]; omega) hb
+  obtain ⟨ch, more, hcm, hc | ⟨h1, h2, h3, -⟩⟩ := loadFile_change_accept hty hty2 hd hdf hi h
+  · exact ⟨ch, more, hcm, hc⟩
+  · subst h1 h2
+    exact (flipBit_one_ne_two hb (encodeChunk_getElem?_8 1 data tail) h3).elim
+
+/-- single-bit flip in a later chunk, strict load -/
+theorem loadFile_flip_later_accept {bodyOk : Nat → Bytes → Bool} (pre : List Stored)
+    (hpre : ∀ s ∈ pre, s.WF bodyOk) {ty : Nat} {data tail : Bytes} {i bit : Nat}
+    (hty : ty ≤ 3) (hty2 : ty ≠ 2) (hd : data.length < 2 ^ 64)
+    (hlo : (fileOf pre).length ≤ i) (hhi : i < (fileOf pre).length + (encodeChunk ty data).length)
+    (hb : bit < 8) {chunks : List Chunk}
+    (h : loadFile bodyOk .error (flipBit (fileOf pre ++ (encodeChunk ty data ++ tail)) i bit)
+      = .ok chunks) :
+    ∃ ch, ch ∈ chunks ∧ Collides ty data ch := by
+  have hdf := flipBit_differsAt (fileOf pre ++ (encodeChunk ty data ++ tail)) i bit
+    (by simp only [List.length_append] at hhi ⊢; omega) hb
+  obtain ⟨ch, hm, hc | ⟨h1, h2, h3, -⟩⟩ :=
+    loadFile_change_later_accept pre hpre hty hty2 hd hdf hlo hhi h
+  · exact ⟨ch, hm, hc⟩
+  · subst h1 h2
+    refine (flipBit_one_ne_two hb ?_ h3).elim
+    rw [List.getElem?_append_right (by omega), Nat.add_sub_cancel_left]
+    exact encodeChunk_getElem?_8 1 data tail
+
+/-! ### The loop bound -/
+
+/-- a successful `Chunk::parse` consumes at least ten bytes -/
+theorem parseChunk_consumes {bodyOk : Nat → Bytes → Bool} {input : Bytes} {ch : Chunk} {rest : Bytes}
+    (hp : parseChunk bodyOk input = .ok (ch, rest)) : rest.length + 10 ≤ input.length := by
+  obtain ⟨e, hc, -, -, -⟩ := parseChunk_ok_inv hp
+  have := encodeChunkWith_length_ge ch.checksum hc ch.ty ch.data
+  rw [e, List.length_append]; omega
+
+/-- the loop bound of the model's `loadChunks` is immaterial once it exceeds the input length
+    (as the bound `loadFile` passes does): `load_changes` is modelled without truncation -/
+theorem loadChunks_fuel_irrelevant (bodyOk : Nat → Bytes → Bool) (f1 f2 : Nat) (data : Bytes)
+    (acc : List Chunk) (h1 : data.length < f1) (h2 : data.length < f2) :
+    loadChunks bodyOk f1 data acc = loadChunks bodyOk f2 data acc := by
+  induction f1 generalizing f2 data acc with
+  | zero => omega
+  | succ n ih =>
+    obtain ⟨m, rfl⟩ : ∃ m, f2 = m + 1 := ⟨f2 - 1, by omega⟩
+    rw [loadChunks, loadChunks]
+    split
+    · rfl
+    · split
+      · rfl
+      · rename_i c rest hp
+        have := parseChunk_consumes hp
+        split
+        · rfl
+        · exact ih _ _ _ (by omega) (by omega)
+
+/-! ### The statements of the task in `WFChunk` form -/
+
+/-- round trip of a well-formed uncompressed chunk, whatever follows it -/
+theorem parseChunk_encode {bodyOk : Nat → Bytes → Bool} {ty : Nat} {data : Bytes} (hty : ty ≤ 3)
+    (hty2 : ty ≠ 2) (hd : data.length < 2 ^ 64) (hb : bodyOk ty data = true) (rest : Bytes) :
+    ∃ chunk, parseChunk bodyOk (encodeChunk ty data ++ rest) = .ok (chunk, rest) ∧
+      chunk.checksumValid = true ∧ chunk.ty = ty ∧ chunk.data = data ∧ chunk.body = data ∧
+      chunk.hash = chunkHash ty data :=
+  ⟨(Stored.plain ty data).chunk, Stored.parse (s := .plain ty data) ⟨hty, hty2, hd, hb⟩ rest,
+    Stored.chunk_valid _, rfl, rfl, rfl, rfl⟩
+
+/-- every proper prefix of a well-formed chunk is `Incomplete` -/
+theorem parseChunk_prefix_incomplete {bodyOk : Nat → Bytes → Bool} {c : Bytes}
+    (h : WFChunk bodyOk c) (k : Nat) (hk : k < c.length) :
+    parseChunk bodyOk (c.take k) = .error .incomplete := by
+  obtain ⟨ty, data, h1, h2, h3, h4, rfl⟩ := h
+  exact Stored.prefix_incomplete (s := .plain ty data) ⟨h1, h2, h3, h4⟩ k hk
 
 end AmVerif.Chunk
